@@ -245,8 +245,18 @@ def execute_plan(prop, tier, seed, plan, say):
             rec = R.determinism_recheck(st["variant"], prop, tier, seed, st["part"], st["runs"], st["block"], st.get("hash_mod", 0), res,
                                         extra=st.get("extra", ()), recheck_block=st.get("recheck_block")) if not res.violations else dict(n=0, mismatches=0, skipped="violations present")
             if rec.get("mismatches"):
-                machinery.append("determinism recheck: %d of %d re-executed runs produced a different log hash (stage %s, runs %s)" % (
-                    rec["mismatches"], rec["n"], st["name"], rec.get("mismatch_runs")))
+                # Different block shapes disagree.  Is each run at least a function of its position in its block?  Re-execute
+                # the original shape: if that agrees with the first pass, the library keeps state from run to run that the
+                # harness does not reset (legitimate for a library to do; recorded, not failed).  If even the same shape
+                # disagrees, the simulation itself is not deterministic: machinery fault.
+                same = R.determinism_recheck(st["variant"], prop, tier, seed, st["part"], st["runs"], st["block"], st.get("hash_mod", 0), res,
+                                             extra=st.get("extra", ()), recheck_block=st["block"], all_blocks=True)
+                rec["same_shape"] = same
+                if same.get("mismatches") or not same.get("n"):
+                    machinery.append("determinism recheck: %d of %d re-executed runs produced a different log hash (stage %s, runs %s), and %s of %s did so even in identically shaped blocks" % (
+                        rec["mismatches"], rec["n"], st["name"], rec.get("mismatch_runs"), same.get("mismatches"), same.get("n")))
+                else:
+                    rec["position_dependent"] = True
             machinery += res.machinery
             for v in res.violations:
                 v["stage"] = st["name"]
@@ -362,9 +372,16 @@ def report_violation(prop, tier, seed, cls, vs, say):
             v = cand
             break
     variant = v["variant"]
-    if not v.get("rerun_same", True):
-        return dict(machinery="violation %s in run %s did not repeat when the same case was executed twice in one process" % (cls, v["run"]))
     case = v.get("case")
+    if not v.get("rerun_same", True):
+        # The same case executed again in the same process behaved differently: the library kept something from the first
+        # execution that the cache reset does not reach (a static, a once-only initialisation).  Fall back to the block
+        # gate: the worker block up to this run, re-executed twice in fresh processes, must show the violation both times.
+        if case is None:
+            case = R.generated_case(variant, prop, tier, seed, v.get("part", ""), v["run"])
+        if case is None or v.get("no_case"):
+            return dict(machinery="violation %s in run %s did not repeat in-process and has no replayable case" % (cls, v["run"]))
+        return report_block(prop, tier, seed, cls, v, case)
     if case is None and not v.get("no_case"):
         case = R.generated_case(variant, prop, tier, seed, v.get("part", ""), v["run"])
     if case is None:
